@@ -7,6 +7,7 @@ property statement and the Eclipse keyword definitions: it knows the numbers tha
 the deck, an independent unit table, and nothing about how the library interpolates.
 """
 import math
+import os
 
 from hypothesis import strategies as st
 
@@ -50,6 +51,11 @@ INVB, MU, SAT_INVB, SAT_MU, SAT_R, PSAT, C_INVB, C_MU, C_PSAT = range(9)
 FN_NAME = ["invB", "mu", "satInvB", "satMu", "satR", "psat", "invB(p,satR(p))", "mu(p,satR(p))", "psat(satR(p))"]
 
 EPS = 2.0 ** -52
+
+# VERIF_C14_IGNORE_KNOWN=key1,key2 (read here only): treat the listed known_findings signatures as absent, i.e. report
+# such violations like any other.  Used to verify a candidate fix in a private worktree without editing the shared
+# known_findings.jsonl.
+IGNORE_KNOWN = set(k for k in os.environ.get("VERIF_C14_IGNORE_KNOWN", "").split(",") if k)
 # relative step of the difference quotients.  1e-7: the one-sided quotients of the smooth but non-linear pieces
 # (viscosity = ratio of two interpolants, PVTW polynomials) then differ by h f''/f' ~ 1e-7..1e-6 relative, below the
 # 1e-6 tolerance, while rounding noise eps/h = 2e-9 (times the conditioning f/(f' x)) stays small
@@ -411,6 +417,10 @@ class C14(Check):
                   ["copy" if t is None else 1 for t in case["water"]]], 16)
         return nontriv, fp, sorted(set(labels))
 
+    def known_key(self, case, viol):
+        k = viol.get("key")
+        return None if k in IGNORE_KNOWN else k
+
     def sample_view(self, case):
         return {"units": case["units"], "nreg": case["nreg"], "oil": case["oil"]["kind"], "gas": case["gas"]["kind"],
                 "oil_shape": self._shape(case["oil"]["tables"], case["oil"]["kind"] == "PVTO"),
@@ -632,7 +642,7 @@ class C14(Check):
         for q, r in zip(qs, res):
             v = self.judge(case, q, r, byq, ctx)
             if v is not None:
-                if v.get("key") is None:
+                if v.get("key") is None or v["key"] in IGNORE_KNOWN:
                     return v
                 # a violation with a key may be a listed known finding: keep judging the remaining points so that
                 # a suppressed signature never hides anything else in the same deck
